@@ -27,6 +27,7 @@ fn run_case(fam: i64, case: &[Vec<Tok>]) -> Vec<Vec<Tok>> {
         14 => fam_glob::run_case(case),
         1 | 16 => fam_hist::run_case(case),
         17 => fam_vss::run_case(case),
+        19 => fam_vss::run_case_binary(case),
         6 | 18 => fam_srv::run_case(case),
         20 => fam_hist::run_case_with(case, true),
         15 => case.iter().map(|l| fam_wire::run_line(l)).collect(),
